@@ -10,3 +10,14 @@ package vals
 func verifEqHash(x, y any) (eq bool, hx, hy uint32) {
 	return Equal(x, y), Hash(x), Hash(y)
 }
+
+// verifCmp3: the results of Cmp on three values and their swaps (property C09:
+// compare is a consistent total preorder).
+func verifCmp3(a, b, c any) (ab, ba, bc, ac, aa Ordering) {
+	return Cmp(a, b), Cmp(b, a), Cmp(b, c), Cmp(a, c), Cmp(a, a)
+}
+
+// verifCmp3s: as verifCmp3, verified for strings and booleans.
+func verifCmp3s(a, b, c any) (ab, ba, bc, ac, aa Ordering) {
+	return Cmp(a, b), Cmp(b, a), Cmp(b, c), Cmp(a, c), Cmp(a, a)
+}
